@@ -133,7 +133,9 @@ func printHeap(d *doc, v int) []byte {
 		sp = ""
 	}
 	at := "@ " + d.Variant
-	if d.Variant != "heapprofile" {
+	if d.Variant == "heapprofile" || strings.HasPrefix(d.Variant, "growth") || strings.HasPrefix(d.Variant, "fragmentation") {
+		// no sampling rate in these headers
+	} else {
 		at += fmt.Sprintf("/%d", d.Rate)
 	}
 	fmt.Fprintf(&b, "heap profile: %d: %d [%s%d: %d] %s\n", h.C, h.S, sp, h.C2, h.S2, at)
@@ -212,7 +214,9 @@ func printThreadz(d *doc, v int) []byte {
 	return []byte(b.String())
 }
 
-func printCPU(d *doc, v int) []byte {
+func printCPU(d *doc, v int) []byte { return printCPUWith(d, 0) }
+
+func printCPUWith(d *doc, java uint64) []byte {
 	var b bytes.Buffer
 	var bo binary.ByteOrder = binary.LittleEndian
 	if strings.HasSuffix(d.Variant, "be") {
@@ -225,7 +229,7 @@ func printCPU(d *doc, v int) []byte {
 			binary.Write(&b, bo, uint32(x))
 		}
 	}
-	for _, x := range []uint64{0, 3, 0, uint64(d.Period), 0} {
+	for _, x := range []uint64{0, 3, java, uint64(d.Period), 0} {
 		w(x)
 	}
 	for _, r := range d.Recs {
@@ -239,6 +243,75 @@ func printCPU(d *doc, v int) []byte {
 	w(1)
 	w(0)
 	return b.Bytes()
+}
+
+// Java formats: addresses are identifiers; a trailing section names each of them
+func javaLocations(d *doc, v int) string {
+	var b strings.Builder
+	seen := map[uint64]bool{}
+	b.WriteString("\n")
+	for _, r := range d.Recs {
+		for _, a := range r.Stack {
+			if seen[a] {
+				continue
+			}
+			seen[a] = true
+			switch (int(a) + v) % 3 {
+			case 0:
+				fmt.Fprintf(&b, "  0x%x F%x (File%x.java:%d)\n", a, a, a, a)
+			case 1:
+				fmt.Fprintf(&b, "\t0x%016x F%x (/usr/lib/jvm/libjvm%x.so)\n", a, a, a)
+			default:
+				fmt.Fprintf(&b, "0x%x F%x\n", a, a)
+			}
+		}
+	}
+	if v%2 == 0 {
+		b.WriteString("  0xdead Unused (Unused.java:1)\n")
+	}
+	return b.String()
+}
+
+func printJavaHeap(d *doc, v int) []byte {
+	var b strings.Builder
+	b.WriteString("--- heapz 1 ---\n")
+	if v%2 == 0 {
+		b.WriteString("format = java\nresolution = bytes\n")
+	} else {
+		b.WriteString("resolution=bytes\n\nformat=java\n")
+	}
+	for _, r := range d.Recs {
+		pad := strings.Repeat(" ", v%4)
+		fmt.Fprintf(&b, "%s%d %d @ %s\n", pad, r.S, r.C, hexes(r.Stack, " "))
+		if v%3 == 1 {
+			b.WriteString("\n")
+		}
+	}
+	b.WriteString(javaLocations(d, v))
+	return []byte(b.String())
+}
+
+func printJavaContention(d *doc, v int) []byte {
+	var b strings.Builder
+	b.WriteString("--- contentionz 1 ---\n")
+	b.WriteString("format = java\nresolution = microseconds\n")
+	if !(d.Period == 0 && v%2 == 0) { // no attribute: the period stays 0 and nothing is scaled
+		fmt.Fprintf(&b, "sampling period = %d\n", d.Period)
+	}
+	if v%2 == 1 {
+		b.WriteString("ms since reset = 3000\n")
+	}
+	for _, r := range d.Recs {
+		fmt.Fprintf(&b, "  %d %d @ %s\n", r.S, r.C, hexes(r.Stack, " "))
+	}
+	b.WriteString(javaLocations(d, v))
+	return []byte(b.String())
+}
+
+func printJavaCPU(d *doc, v int) []byte {
+	c := *d
+	out := printCPUWith(&c, 1)
+	return append(out, javaLocations(d, v)...)
 }
 
 // ---- independent evaluation of the named float rules
@@ -317,6 +390,12 @@ func one(raw json.RawMessage, c *lcase, idx int) {
 			data = printThreadz(d, v)
 		case "cpu":
 			data = printCPU(d, v)
+		case "javaheap":
+			data = printJavaHeap(d, v)
+		case "javacontention":
+			data = printJavaContention(d, v)
+		case "javacpu":
+			data = printJavaCPU(d, v)
 		}
 		mm := memMap(c.Map, v, d.Fmt == "heap" || d.Fmt == "cpu")
 		if d.Fmt == "gocount" && mm != "" {
@@ -334,7 +413,7 @@ func sig(c *lcase, what string) string {
 func compare(raw json.RawMessage, c *lcase, data []byte, k int) {
 	run.Count(fmt.Sprintf("%s|%s|%v|%d|%d|%d|%s", c.Doc.Fmt, c.Doc.Variant, c.Doc.Recs, c.Doc.Rate, c.Doc.Period, c.Doc.Hz, c.Map))
 	show := func() string {
-		if c.Doc.Fmt == "cpu" {
+		if c.Doc.Fmt == "cpu" || c.Doc.Fmt == "javacpu" {
 			return fmt.Sprintf("% x", data)
 		}
 		return string(data)
@@ -353,7 +432,21 @@ func compare(raw json.RawMessage, c *lcase, data []byte, k int) {
 	}
 	for i, s := range p.Sample {
 		var got []uint64
+		java := strings.HasPrefix(c.Doc.Fmt, "java")
 		for _, l := range s.Location {
+			if java {
+				// the identifier is recovered from the name the location section gave it; the address itself is cleared
+				var a uint64
+				if len(l.Line) != 1 || l.Line[0].Function == nil || l.Address != 0 {
+					got = append(got, ^uint64(0))
+					continue
+				}
+				if _, err := fmt.Sscanf(l.Line[0].Function.Name, "F%x", &a); err != nil {
+					a = ^uint64(0)
+				}
+				got = append(got, a)
+				continue
+			}
 			got = append(got, l.Address)
 		}
 		if fmt.Sprint(got) != fmt.Sprint(c.Stacks[i]) {
@@ -372,7 +465,7 @@ func compare(raw json.RawMessage, c *lcase, data []byte, k int) {
 		if !ok {
 			run.Violate("values", sig(c, "values:"+c.Values[i].Rule), fmt.Sprintf("sample %d has values %v, rule %s gives %v\n%s", i, s.Value, c.Values[i].Rule, want, show()), raw, nil)
 		}
-		if c.Doc.Fmt == "heap" {
+		if c.Doc.Fmt == "heap" || c.Doc.Fmt == "javaheap" {
 			lab := s.NumLabel["bytes"]
 			switch {
 			case c.Values[i].Bytes != 0 && (len(lab) != 1 || lab[0] != c.Values[i].Bytes):
@@ -382,6 +475,9 @@ func compare(raw json.RawMessage, c *lcase, data []byte, k int) {
 			}
 		}
 		for j, l := range s.Location {
+			if java {
+				break // Java locations carry no address, hence no mapping
+			}
 			want := c.Mappings[i][j]
 			m := l.Mapping
 			gotm := "nil"
